@@ -639,6 +639,16 @@ static void iauth_xquery_config_service(const char *name, const char *type)
     srv->configured = 1;
 }
 
+static void iauth_xquery_services_changed(struct conf_node_base *node);
+
+/** Handles an in-place change of one service entry (e.g. a new
+ * protocol for an existing service): rescan the whole section.
+ */
+static void iauth_xquery_service_changed(struct conf_node_base *node)
+{
+    iauth_xquery_services_changed(&node->parent->base);
+}
+
 static void iauth_xquery_services_changed(struct conf_node_base *node)
 {
     struct iauth_xquery_service *srv;
@@ -656,6 +666,10 @@ static void iauth_xquery_services_changed(struct conf_node_base *node)
         /* Mark each named service as configured. */
         for (jj = set_first(&conf.root->contents); jj != NULL; jj = set_next(jj)) {
             struct conf_node_base *base = set_node_data(jj);
+
+            /* Make sure we hear about edits to this entry. */
+            if (!base->hook)
+                base->hook = iauth_xquery_service_changed;
 
             if (base->type == CONF_STRING) {
                 struct conf_node_string *str = set_node_data(jj);
